@@ -174,6 +174,8 @@ def eng_cli(pid, tier, wd, known, replay=None):
                     open(p, "wb").write(c0 + b"\n")
                 if os.path.exists(p):
                     fs0[n] = sha(open(p, "rb").read())
+            for n in pkgs:          # a file of the user's next to the output, named like a temporary of it
+                open(os.path.join(root, n, prefix + "wire_gen.go.tmp"), "w").write("user notes, not Wire's\n")
             before = snapshot(root)
             o2 = [o.replace("HDR", "/nonexistent/hdr" if bad_header else os.path.join(root, "hdr.txt")) for o in opts]
             if cmd == "diff":
